@@ -193,12 +193,16 @@ def oracle(case, obs, flags):
     tol = case["tol"]
     kap = case.get("kappa", 1.0)
     checked = 0
+    anorm2 = float(np.linalg.norm(A, 2))
     info["exhausted"] = 0
     for j in range(nc):
         b, x0 = B[:, j], X0[:, j]
         r0n = float(np.linalg.norm(b - A @ x0))
         xo, ro, dim = ls_optimum(A, b, x0, m)
-        exhausted = ro <= 1e-9 * r0n
+        # attainable accuracy of any residual computed in binary64 (matters for warm starts, where ||r0|| is tiny relative
+        # to ||b||): observed <= 0.7 eps (||A|| ||x|| + ||b||) on the unchanged tree, allowed 200 eps (...)
+        floor = 200 * 2.2e-16 * (anorm2 * float(np.linalg.norm(X[:, j] if np.all(np.isfinite(X[:, j])) else x0)) + float(np.linalg.norm(b)))
+        exhausted = ro <= 1e-9 * r0n + floor
         info["exhausted"] += int(exhausted)
         if flags.get("gmres_square_H") and (not exhausted or lastsub[j] > 1e-10):
             continue      # the dropped Hessenberg entry H[m, m-1] is not negligible (truncated run, or orthogonality lost)
@@ -209,7 +213,8 @@ def oracle(case, obs, flags):
             bad.append("column %d: non-finite solution" % j)
             continue
         res = float(np.linalg.norm(b - A @ X[:, j]))
-        slack = (1e-6 + 30 * tol * kap) * r0n + 1e-300     # rounding + the accuracy the caller's tol asks of Arnoldi
+        slack = (1e-6 + 30 * tol * kap) * r0n + floor      # rounding + the accuracy the caller's tol asks of Arnoldi
+        info["ratio_worst"] = max(info.get("ratio_worst", 0.0), res / r0n if r0n > 0 else 0.0)
         if res > ro * (1 + 1e-6) + slack:
             bad.append("column %d: residual %.6e exceeds the least-squares optimum %.6e over x0+K_%d (||r0||=%.3e)" % (j, res, ro, m, r0n))
         if res > r0n * (1 + 1e-9) + slack:
